@@ -21,22 +21,63 @@ Sections
   maxpool-overlap   MaxPool1d whose windows overlap (stride < kernel and/or dilation > 1).  The statement
                 quantifies over "max-pooling" without restriction, the implementation passes
                 module.dilation on purpose, so these are asserted, under their own finding keys.
+  extra-act     element-wise activations that are NOT in the built-in table (Hardtanh, Softsign, Tanhshrink,
+                Hardswish, Hardsigmoid, Hardshrink, Threshold, a user module x*x), made "supported" through
+                additional_nonlinear_ops={cls: _nonlinear} as documented
+  near          references = x + eps * noise, eps in 3e-4 .. 1e-2: every activation input differs by a small
+                amount that lies OUTSIDE the gradient-fallback band, so the rescale rule (not the gradient)
+                must be used; tolerance 1e-11 relative (observed residuals ~1e-15)
+  pool2d        random MaxPool2d (int / tuple kernel, stride, padding, dilation, ceil_mode) on the
+                (channel, position) plane
+  args          models with additional forward arguments (args=(a,) / (a, b)), batches that cut through
+                the references of one example
+  nested        the same generator, layers grouped into nested nn.Sequential containers
+  many          5-9 examples, 1-3 references, batch sizes that straddle examples
+  history       call histories on shared state: a preceding call on ANOTHER model that overrides the
+                rules of ReLU/Tanh/MaxPool1d through additional_nonlinear_ops must not leak into the next
+                call; a preceding call on the SAME model that raised (target out of range) must not matter
+Options mixed into the random sections: hypothetical=True (sum(attr * x) is the asserted quantity: the
+attribution of the characters actually present), return_references=False (tensor references), an
+n_shuffles argument that contradicts a reference tensor (documented: ignored), verbose /
+print_convergence_deltas, negative target index, references that equal x / duplicate references.
+For a reference TENSOR the oracle uses the tensor that was GIVEN (pair j of the raw output belongs to
+references[:, j]), not the one handed back by return_references.
+
+POSSIBLE DEFECT (cases kept, switched off by the flags below; both raise on the unchanged tree)
+  ENABLE_AMBIENT_NO_GRAD  deep_lift_shap called inside `with torch.no_grad():` raises
+        RuntimeError "One of the differentiated Tensors appears to not have been used in the graph":
+        X_ = torch.cat([_X, _references]) (L420) is executed BEFORE the set_grad_enabled(True) block, so
+        the graph does not reach _X.  Input: any model, e.g. Conv1d(4,3,3,padding=1)-ReLU-Flatten-Linear,
+        X = random_one_hot((2,4,10)), references tensor (2,3,4,10), device='cpu', under torch.no_grad().
+        The statement does not mention the ambient grad mode, the code visibly intends to support it.
+  ENABLE_INPLACE_ACT      a supported activation constructed with inplace=True (nn.ReLU(inplace=True), same
+        model/input as above) raises RuntimeError "Output 0 of BackwardHookFunction is a view and is being
+        modified inplace" (full backward hook + in-place op).  Whether ReLU(inplace=True) is one of "the
+        supported element-wise activations" is a matter of reading.
+
 Not asserted (outside "element-wise activations"): GLU (changes the shape; raises), Softmax (not
 element-wise).  A model that applies ONE activation module object at two places is measured and
 reported as a note only: the statement's quantifier ("randomly generated architectures") does not
 clearly include weight/module sharing.
 """
+import contextlib
 import copy
+import io
 import warnings
 
 import numpy
 import torch
 
-from tangermeme.deep_lift_shap import deep_lift_shap
+from tangermeme.deep_lift_shap import deep_lift_shap, _nonlinear
 from tangermeme.ersatz import dinucleotide_shuffle, shuffle
 from tangermeme.utils import random_one_hot
 
 nn = torch.nn
+torch.set_num_threads(1)
+
+# see POSSIBLE DEFECT in the module docstring
+ENABLE_AMBIENT_NO_GRAD = False
+ENABLE_INPLACE_ACT = False
 
 SCOPE = {
     'quick': 'seeded random sequential float64 nets, depth 1-4 weight layers (Conv1d k1-4/stride1-3/dilation1-3/padding0-2, Linear, AvgPool1d incl. padding/ceil/overlap, MaxPool1d with disjoint windows incl. padding/ceil, Flatten/Unflatten/Transpose, 16 element-wise activations of the table with non-default parameters), alphabet 2-5, length 6-14, 1-3 examples x 1-4 references (tensor: one-hot / zeros / uniform / real-valued; generated: dinucleotide_shuffle and shuffle with int seed, dinucleotide_shuffle unseeded), every target, batch_size 1..n*S+2: 1200 nets + every activation class (2 parameterisations x 2 weight scales) in a fixed 3-layer net + 4 non-sequential models (residual add, concatenated branches + MaxPool1d, activation/max-pool on the input, MaxPool2d) x 3 seeds + 2 nets with the default n_shuffles=20 / batch_size=32 + 100 nets with overlapping/dilated MaxPool1d and the two minimal hand-checkable ones',
@@ -65,13 +106,40 @@ ACTS = {
     'PReLU': lambda q: nn.PReLU(),
 }
 ACT_NAMES = sorted(ACTS)
-ACT_CLASSES = tuple({type(f(0)) for f in ACTS.values()})
+
+
+class Square(nn.Module):
+    """a user-written element-wise activation"""
+    def forward(self, X):
+        return X * X
+
+
+# element-wise activations that are not in the built-in table: supported through additional_nonlinear_ops
+EXTRA_ACTS = {
+    'Hardtanh': lambda q: nn.Hardtanh(-0.5, (1.0, 0.7)[q % 2]),
+    'Softsign': lambda q: nn.Softsign(),
+    'Tanhshrink': lambda q: nn.Tanhshrink(),
+    'Hardswish': lambda q: nn.Hardswish(),
+    'Hardsigmoid': lambda q: nn.Hardsigmoid(),
+    'Hardshrink': lambda q: nn.Hardshrink((0.5, 0.2)[q % 2]),
+    'Threshold': lambda q: nn.Threshold((0.1, -0.3)[q % 2], -0.5),
+    'Square': lambda q: Square(),
+}
+EXTRA_NAMES = sorted(EXTRA_ACTS)
+ALL_ACTS = dict(ACTS, **EXTRA_ACTS)
+EXTRA_CLASSES = tuple({type(f(0)) for f in EXTRA_ACTS.values()})
+ACT_CLASSES = tuple({type(f(0)) for f in ALL_ACTS.values()})
 
 
 class Transpose(nn.Module):
     """reshaping layer: (B, C, L) -> (B, L, C)"""
     def forward(self, X):
         return X.transpose(1, 2)
+
+
+def _t(v):
+    """MaxPool2d parameter: int or [h, w]"""
+    return tuple(v) if isinstance(v, (list, tuple)) else v
 
 
 def make_layer(l):
@@ -81,18 +149,51 @@ def make_layer(l):
     if k == 'lin':
         return nn.Linear(l[1], l[2], bias=bool(l[3]))
     if k == 'act':
-        return ACTS[l[1]](l[2])
+        return ALL_ACTS[l[1]](l[2])
     if k == 'avg':
         return nn.AvgPool1d(l[1], stride=l[2], padding=l[3], ceil_mode=bool(l[4]), count_include_pad=bool(l[5]))
     if k == 'max':
         return nn.MaxPool1d(l[1], stride=l[2], padding=l[3], dilation=l[4], ceil_mode=bool(l[5]))
+    if k == 'max2':      # on (B, 1, C, L); every parameter int or [h, w]
+        return nn.MaxPool2d(_t(l[1]), stride=_t(l[2]), padding=_t(l[3]), dilation=_t(l[4]), ceil_mode=bool(l[5]))
+    if k == 'unsq':      # (B, C, L) -> (B, 1, C, L)
+        return nn.Unflatten(1, (1, l[1]))
     if k == 'flat':
         return nn.Flatten()
     if k == 'unflat':
         return nn.Unflatten(1, (l[1], l[2]))
     if k == 'transpose':
         return Transpose()
+    if k == 'seq':       # nested container
+        return nn.Sequential(*[make_layer(x) for x in l[1]])
     raise ValueError(k)
+
+
+def flat_layers(spec):
+    for l in spec:
+        if l[0] == 'seq':
+            yield from flat_layers(l[1])
+        else:
+            yield l
+
+
+def nestify(rng, spec):
+    """group runs of consecutive layers into nested nn.Sequential containers (same function)"""
+    out, i = [], 0
+    while i < len(spec):
+        m = rng.randint(1, 3)
+        grp = spec[i:i + m]
+        i += m
+        r = rng.random()
+        if r < 0.5:
+            out.append(['seq', grp])
+        elif r < 0.75:
+            out.append(['seq', [['seq', grp[:1]]] + grp[1:]])
+        else:
+            out.extend(grp)
+    if not any(l[0] == 'seq' for l in out):
+        out = [['seq', [['seq', out[:-1]]]], out[-1]] if len(out) > 1 else [['seq', out]]
+    return out
 
 
 def init_weights(model, wseed, gain):
@@ -193,12 +294,50 @@ def gen_spec(rng, A, L, depth, n_targets, maxpool='disjoint', acts=None, p_max=0
     raise RuntimeError('generator failed')
 
 
+def gen_spec2d(rng, A, L, n_targets):
+    """conv -> act -> MaxPool2d over the (channel, position) plane -> [act] -> head.  Kernel / stride /
+    padding / dilation are ints or (h, w) pairs, windows may overlap, ceil_mode on or off"""
+    for _attempt in range(300):
+        C = rng.randint(2, 5)
+        spec = [['conv', A, C, rng.randint(1, 3), 1, 1, rng.randint(0, 1), 1], ['act', rng.choice(ACT_NAMES), rng.randint(0, 5)], ['unsq', C]]
+        if rng.random() < 0.35:      # all-int parameters (what MaxPool2d(2) stores)
+            k = rng.randint(2, 3)
+            mp = ['max2', k, rng.choice([k, k, 1, k - 1 or 1]), rng.randint(0, k // 2), rng.choice([1, 1, 1, 2]), rng.randint(0, 1)]
+        else:
+            kh, kw = rng.randint(1, min(3, C)), rng.randint(1, 3)
+            if kh * kw == 1:
+                kw = 2
+            mp = ['max2', [kh, kw], [rng.randint(1, kh + 1), rng.randint(1, kw + 1)], [rng.randint(0, kh // 2), rng.randint(0, kw // 2)],
+                  rng.choice([1, [1, 1], [1, 1], [1, 2], [2, 1]]), rng.randint(0, 1)]
+        spec.append(mp)
+        if rng.random() < 0.3:
+            spec.append(['act', rng.choice(ACT_NAMES), rng.randint(0, 5)])
+        spec.append(['flat'])
+        try:
+            cur = torch.zeros(1, A, L, dtype=torch.float64)
+            for l in spec:
+                cur = make_layer(l).double()(cur)
+            if cur.numel() == 0 or cur.numel() > 400 or not bool(torch.isfinite(cur).all()):
+                continue
+        except Exception:
+            continue
+        spec.append(['lin', cur.shape[1], n_targets, 1])
+        return spec
+    raise RuntimeError('generator failed')
+
+
+def _pair(v):
+    return list(v) if isinstance(v, (list, tuple)) else [v, v]
+
+
 def overlap_kind(spec):
     """classification of the input class, used for the finding key"""
-    ov = [l for l in spec if l[0] == 'max' and (l[2] < l[1] or l[4] > 1)]
-    if not ov:
+    layers = list(flat_layers(spec))
+    ov = [l for l in layers if l[0] == 'max' and (l[2] < l[1] or l[4] > 1)]
+    ov2 = [l for l in layers if l[0] == 'max2' and (any(s < k for s, k in zip(_pair(l[2]), _pair(l[1]))) or max(_pair(l[4])) > 1)]
+    if not ov and not ov2:
         return None
-    return 'dilated' if any(l[4] > 1 for l in ov) else 'overlap'
+    return 'dilated' if any(l[4] > 1 for l in ov) or any(max(_pair(l[4])) > 1 for l in ov2) else 'overlap'
 
 
 # ---------------------------------------------------------------------------------------------
@@ -253,7 +392,43 @@ class Pool2d(nn.Module):
         return s.l(s.p(s.a(s.c(X)).unsqueeze(1)).flatten(1))
 
 
-DAGS = {'res': Res, 'branch': Branch, 'inputact': InputAct, 'shared': Shared, 'pool2d': Pool2d}
+class Args1(nn.Module):
+    """one additional forward argument a: (B, 3), scales the channels and enters the head"""
+    n_args = 1
+
+    def __init__(s, A, L):
+        super().__init__()
+        s.c, s.a, s.p, s.l, s.la = nn.Conv1d(A, 3, 3, padding=1), nn.GELU(), nn.MaxPool1d(2), nn.Linear(3 * (L // 2), 2), nn.Linear(3, 2)
+
+    def forward(s, X, a):
+        return s.l(s.p(s.a(s.c(X) * (1.0 + a[:, :, None]))).flatten(1)) + s.la(a)
+
+
+class Args2(nn.Module):
+    """two additional forward arguments a: (B, 3) and b: (B, L)"""
+    n_args = 2
+
+    def __init__(s, A, L):
+        super().__init__()
+        s.c, s.a, s.b, s.l = nn.Conv1d(A, 3, 3, padding=1), nn.ELU(), nn.Sigmoid(), nn.Linear(3 * L, 2)
+
+    def forward(s, X, a, b):
+        h = s.a(s.c(X) + a[:, :, None]) * b[:, None, :]
+        return s.l(s.b(h).flatten(1))
+
+
+DAGS = {'res': Res, 'branch': Branch, 'inputact': InputAct, 'shared': Shared, 'pool2d': Pool2d, 'args1': Args1, 'args2': Args2}
+
+
+def make_args(case):
+    """additional forward arguments of the model (one row per example) or None"""
+    k = getattr(DAGS.get(case.get('dag')), 'n_args', 0)
+    if not k:
+        return None
+    g = torch.Generator().manual_seed(case['xseed'] + 104729)
+    a = torch.randn(case['n'], 3, generator=g, dtype=torch.float64)
+    b = torch.rand(case['n'], case['L'], generator=g, dtype=torch.float64) * 2 - 0.5
+    return (a, b)[:k]
 
 # smallest overlapping-window input: alphabet {A, C}, x = ACA, reference all-zero, MaxPool1d(2, stride=1)
 # directly on the input, then the sum of everything.  f(x) = 4, f(ref) = 0; position 1 of row C is the
@@ -266,6 +441,15 @@ MINIMAL_DILATED = dict(MINIMAL_OVERLAP, spec=[['max', 2, 1, 0, 2, 0], ['flat'], 
 
 
 def model_of(case):
+    m = _model_of(case)
+    if case.get('inplace'):          # POSSIBLE DEFECT / ENABLE_INPLACE_ACT
+        for mod in m.modules():
+            if isinstance(mod, ACT_CLASSES) and hasattr(mod, 'inplace'):
+                mod.inplace = True
+    return m
+
+
+def _model_of(case):
     if case.get('weights') == 'ones':        # hand-checkable minimal cases: every weight 1, no bias term
         m = nn.Sequential(*[make_layer(l) for l in case['spec']]).double().eval()
         for p in m.parameters():
@@ -298,6 +482,15 @@ def make_refs(case, X):
         return torch.full((n, S, A, L), 1.0 / A, dtype=torch.float64), {}
     if r == 'real':
         return torch.rand(n, S, A, L, generator=g, dtype=torch.float64), {}
+    if r == 'near':          # x + eps * noise: small activation differences outside the gradient-fallback band
+        return X[:, None] + case['eps'] * torch.randn(n, S, A, L, generator=g, dtype=torch.float64), {}
+    if r == 'self':          # reference 0 of every example is the example itself, the others are one-hot
+        R = random_one_hot((n * S, A, L), random_state=case['xseed'] + 1).double().reshape(n, S, A, L)
+        R[:, 0] = X
+        return R, {}
+    if r == 'dup':           # the S references of an example are identical
+        R = random_one_hot((n, A, L), random_state=case['xseed'] + 1).double()
+        return R[:, None].repeat(1, S, 1, 1), {}
     if r == 'dinuc':
         return dinucleotide_shuffle, {'n_shuffles': S, 'random_state': case['rs']}
     if r == 'shuffle':
@@ -307,10 +500,11 @@ def make_refs(case, X):
     raise ValueError(r)
 
 
-REF_KINDS = ['onehot', 'onehot', 'zeros', 'uniform', 'real', 'dinuc', 'dinuc', 'shuffle', 'dinuc-noseed']
+REF_KINDS = ['onehot', 'onehot', 'zeros', 'uniform', 'real', 'dinuc', 'dinuc', 'shuffle', 'dinuc-noseed', 'self', 'dup', 'near']
+NEAR_EPS = [3e-4, 1e-3, 1e-2]
 
 
-def _act_inputs(model, Z):
+def _act_inputs(model, Z, args=None):
     """inputs of every activation / max-pool module for the batch Z (forward hooks on a private copy)"""
     m = copy.deepcopy(model)
     got, hs = [], []
@@ -318,20 +512,64 @@ def _act_inputs(model, Z):
         if isinstance(mod, ACT_CLASSES + (nn.MaxPool1d, nn.MaxPool2d)):
             hs.append(mod.register_forward_pre_hook(lambda mod, inp: got.append(inp[0].detach().clone())))
     with torch.no_grad():
-        m(Z)
+        m(Z, *(args or ()))
     for h in hs:
         h.remove()
     return got
 
 
-def _call(model, X, refs_arg, kw, case, raw):
+def _passthrough(module, grad_input, grad_output):
+    """a (deliberately non-DeepLIFT) user rule: the plain gradient"""
+    return (grad_input[0],)
+
+
+def _history(case, model, X):
+    """calls that precede the measured ones (call histories on shared state)"""
+    pre = case.get('pre')
+    if pre == 'poison':
+        # ANOTHER model, with user rules that override built-in ones for that call only
+        other = init_weights(nn.Sequential(nn.Conv1d(case['A'], 2, 3, padding=1), nn.ReLU(), nn.MaxPool1d(2), nn.Tanh(), nn.Flatten(),
+                                           nn.Linear(2 * (case['L'] // 2), 1)), 1, 1.0)
+        ops = {c: _passthrough for c in (nn.ReLU, nn.Tanh, nn.Sigmoid, nn.GELU, nn.ELU, nn.Softplus, nn.MaxPool1d)}
+        with warnings.catch_warnings():
+            warnings.simplefilter('ignore')
+            deep_lift_shap(other, X[:1], references=torch.zeros(1, 1, case['A'], case['L'], dtype=torch.float64), device='cpu',
+                           additional_nonlinear_ops=ops)
+    elif pre == 'raise':
+        # the SAME model, a call that fails after the hooks were registered
+        try:
+            deep_lift_shap(model, X[:1], target=10 ** 6, references=torch.zeros(1, 1, case['A'], case['L'], dtype=torch.float64), device='cpu')
+        except Exception:
+            pass
+
+
+def _call(model, X, refs_arg, kw, case, raw, ret=True, hyp=False, args=None):
+    """-> (attributions, references handed back or None, convergence / runtime warnings)"""
     numpy.random.seed(case['xseed'] % (2 ** 31))      # only matters for random_state=None
+    kw = dict(kw)
+    if isinstance(refs_arg, torch.Tensor) and case.get('nshuf_arg') is not None:
+        kw['n_shuffles'] = case['nshuf_arg']          # documented: ignored when a tensor is given
+    xops = {type(m): _nonlinear for m in model.modules() if isinstance(m, EXTRA_CLASSES)}
+    if xops:
+        kw['additional_nonlinear_ops'] = xops
+    if hyp:
+        kw['hypothetical'] = True
+    if case.get('chatty'):
+        kw.update(verbose=True, print_convergence_deltas=True)
+    if args is not None:
+        kw['args'] = args
+    ctx = torch.no_grad() if case.get('nograd') else contextlib.nullcontext()   # POSSIBLE DEFECT / ENABLE_AMBIENT_NO_GRAD
     with warnings.catch_warnings(record=True) as w:
         warnings.simplefilter('always')
-        out = deep_lift_shap(model, X, target=case['target'], batch_size=case['batch_size'], references=refs_arg,
-                             return_references=True, raw_outputs=raw, device='cpu', **kw)
-    nw = [str(x.message)[:80] for x in w if issubclass(x.category, RuntimeWarning)]
-    return out[0], out[1].double(), nw
+        with contextlib.redirect_stdout(io.StringIO()), contextlib.redirect_stderr(io.StringIO()), ctx:
+            out = deep_lift_shap(model, X, target=case['target'], batch_size=case['batch_size'], references=refs_arg,
+                                 return_references=ret, raw_outputs=raw, device='cpu', **kw)
+    nw = [str(x.message)[:80] for x in w if issubclass(x.category, RuntimeWarning) or 'onvergence' in str(x.message)]
+    if ret:
+        return out[0], out[1].double(), nw
+    if not isinstance(out, torch.Tensor):
+        raise TypeError('return_references=False returned %s, not a tensor' % type(out).__name__)
+    return out, None, nw
 
 
 def finding_of(case, what):
@@ -347,36 +585,61 @@ def check_net(case, info=None):
     out = []
     kind = overlap_kind(case['spec']) if case.get('spec') else None
     model = model_of(case)           # handed to deep_lift_shap
-    clean = model_of(case)           # never hooked: forward passes of "the same model"
+    clean = _model_of(case)          # never hooked: forward passes of "the same model"
     X = make_X(case)
+    X0 = X.clone()
     n, S, A, L, t = case['n'], case['S'], case['A'], case['L'], case['target']
     refs_arg, kw = make_refs(case, X)
+    given = refs_arg.clone() if isinstance(refs_arg, torch.Tensor) else None
+    args = make_args(case)
+    ret = not (case.get('noret') and given is not None)      # return_references=False only with a reference tensor
+    hyp = refs_h = None
     try:
-        attr, refs_p, w1 = _call(model, X, refs_arg, kw, case, False)
-        mult, refs_r, w2 = _call(model, X, refs_arg, kw, case, True)
+        _history(case, model, X)
+        attr, refs_p, w1 = _call(model, X, refs_arg, kw, case, False, ret=ret, args=args)
+        mult, refs_r, w2 = _call(model, X, refs_arg, kw, case, True, ret=ret, args=args)
+        if case.get('hyp'):
+            hyp, refs_h, w3 = _call(model, X, refs_arg, kw, case, False, ret=ret, hyp=True, args=args)
+            w2 = w2 + w3
     except Exception as e:
         return [('deep_lift_shap raised instead of returning attributions (%s model)%s: %s: %s'
                  % (kind or 'in-scope', ' ' * 24, type(e).__name__, str(e)[:100]))]
-    if tuple(attr.shape) != (n, A, L):
+    X = X0
+    if tuple(attr.shape) != (n, A, L) or (hyp is not None and tuple(hyp.shape) != (n, A, L)):
         return [('processed shape %s != X shape' % (tuple(attr.shape),))]
-    if tuple(mult.shape) != (n, S, A, L) or tuple(refs_p.shape) != (n, S, A, L):
-        return [('raw shape %s / references shape %s' % (tuple(mult.shape), tuple(refs_p.shape)))]
-    if not (torch.isfinite(attr).all() and torch.isfinite(mult).all()):
+    if tuple(mult.shape) != (n, S, A, L):
+        return [('raw shape %s != (n, n_shuffles, A, L)' % (tuple(mult.shape),))]
+    for r in (refs_p, refs_r, refs_h):
+        if r is not None and tuple(r.shape) != (n, S, A, L):
+            return [('raw shape %s / references shape %s' % (tuple(mult.shape), tuple(r.shape)))]
+    if given is not None:
+        # "any reference set": pair j of example e is (x_e, references[e, j]) of the tensor that was passed in
+        refs_p = refs_r = given
+        refs_h = given if hyp is not None else None
+    if not (torch.isfinite(attr).all() and torch.isfinite(mult).all() and (hyp is None or torch.isfinite(hyp).all())):
         out.append(('non-finite attribution / multiplier'))
         return out
+
+    def xargs(rep):
+        return () if args is None else tuple(a.repeat_interleave(rep, 0) for a in args)
+
     with torch.no_grad():
-        fx = clean(X)[:, t]
-        fr_p = clean(refs_p.reshape(n * S, A, L))[:, t].reshape(n, S)
-        fr_r = clean(refs_r.reshape(n * S, A, L))[:, t].reshape(n, S)
+        fx = clean(X, *xargs(1))[:, t]
+        fr_p = clean(refs_p.reshape(n * S, A, L), *xargs(S))[:, t].reshape(n, S)
+        fr_r = clean(refs_r.reshape(n * S, A, L), *xargs(S))[:, t].reshape(n, S)
+        fr_h = clean(refs_h.reshape(n * S, A, L), *xargs(S))[:, t].reshape(n, S) if hyp is not None else None
     # band detection (see module docstring)
     band = False
-    Z = torch.cat([X.repeat_interleave(S, 0), refs_r.reshape(n * S, A, L), refs_p.reshape(n * S, A, L)])
-    for h in _act_inputs(clean, Z):
-        a, b, c = h.chunk(3)
-        for d in ((a - b).abs(), (a - c).abs()):
+    others = [r.reshape(n * S, A, L) for r in (refs_r, refs_p, refs_h) if r is not None]
+    Z = torch.cat([X.repeat_interleave(S, 0)] + others)
+    zargs = None if args is None else tuple(a.repeat_interleave(S, 0).repeat(1 + len(others), 1) for a in args)
+    for h in _act_inputs(clean, Z, zargs):
+        parts = h.chunk(1 + len(others))
+        for b in parts[1:]:
+            d = (parts[0] - b).abs()
             if bool(((d > 0) & (d < 1e-5)).any()):
                 band = True
-    rel = 1e-4 if band else 1e-9
+    rel = 1e-4 if band else (1e-11 if case['refs'] == 'near' else 1e-9)
     terms = (X[:, None] - refs_r) * mult
     lhs_r = terms.sum(dim=(2, 3))
     rhs_r = fx[:, None] - fr_r
@@ -392,29 +655,53 @@ def check_net(case, info=None):
     if bool((err_p > rel).any()):
         e = int(err_p.argmax())
         out.append(('processed clause: sum(attributions) != f(x)[t] - mean_j f(ref_j)[t] for an example: %.12g vs %.12g (example %d)' % (lhs_p[e], rhs_p[e], e)))
+    err_h = torch.zeros(1, dtype=torch.float64)
+    if hyp is not None:
+        # hypothetical=True: the attribution of the characters actually present is hyp * x
+        lhs_h = (hyp * X).sum(dim=(1, 2))
+        rhs_h = fx - fr_h.mean(dim=1)
+        err_h = (lhs_h - rhs_h).abs() / (1 + fx.abs() + fr_h.abs().mean(dim=1) + (hyp * X).abs().sum(dim=(1, 2)))
+        if bool((err_h > rel).any()):
+            e = int(err_h.argmax())
+            out.append(('processed clause (hypothetical=True): sum(attributions * x) != f(x)[t] - mean_j f(ref_j)[t] for an example: %.12g vs %.12g (example %d)' % (lhs_h[e], rhs_h[e], e)))
     if (w1 or w2) and not band:
         out.append(('warning clause: a RuntimeWarning was emitted for a model inside the property scope: %s' % (w1 + w2)[0]))
     if info is not None:
         # non-trivial: the rescale rule made a difference w.r.t. the plain gradient
         Xg = X.repeat_interleave(S, 0).clone().requires_grad_()
-        g = torch.autograd.grad(clean(Xg)[:, t].sum(), Xg)[0].reshape(n, S, A, L)
+        g = torch.autograd.grad(clean(Xg, *xargs(S))[:, t].sum(), Xg)[0].reshape(n, S, A, L)
         info['nontrivial'] = bool(((g - mult).abs() > 1e-6).any())
-        info['max_rel_err'] = float(max(err_r.max(), err_p.max()))
+        info['max_rel_err'] = float(max(err_r.max(), err_p.max(), err_h.max()))
         info['band'] = band
     return out
 
 
 # ---------------------------------------------------------------------------------------------
 
-def _new_case(rng, section, spec_fn):
+def _new_case(rng, section, spec_fn, refs=None, n_range=(1, 3), S_range=(1, 4), nest=0.12):
     A = rng.choice([4, 4, 4, 2, 3, 5])
     L = rng.randint(6, 14)
-    n, S = rng.randint(1, 3), rng.randint(1, 4)
+    n, S = rng.randint(*n_range), rng.randint(*S_range)
     nt = rng.randint(1, 3)
     case = {'kind': 'net', 'section': section, 'A': A, 'L': L, 'n': n, 'S': S, 'target': rng.randrange(nt),
             'wseed': rng.randrange(10 ** 6), 'gain': rng.choice([0.7, 1.5, 3.0]), 'xseed': rng.randrange(10 ** 6),
-            'refs': rng.choice(REF_KINDS), 'rs': rng.randrange(1000), 'batch_size': rng.randint(1, n * S + 2)}
+            'refs': refs or rng.choice(REF_KINDS), 'rs': rng.randrange(1000), 'batch_size': rng.randint(1, n * S + 2)}
     case['spec'] = spec_fn(rng, A, L, nt)
+    # rarely used options / argument forms
+    if case['refs'] == 'near':
+        case['eps'] = rng.choice(NEAR_EPS)
+    if rng.random() < 0.12:
+        case['target'] -= nt                  # negative index into the last dimension
+    if rng.random() < 0.15:
+        case['hyp'] = 1                       # + a call with hypothetical=True
+    if rng.random() < 0.3:
+        case['noret'] = 1                     # return_references=False (takes effect with a reference tensor)
+    if rng.random() < 0.3:
+        case['nshuf_arg'] = rng.choice([1, 7, 20])     # contradicts the reference tensor: must be ignored
+    if rng.random() < 0.03:
+        case['chatty'] = 1                    # verbose=True, print_convergence_deltas=True
+    if rng.random() < nest:
+        case['spec'] = nestify(rng, case['spec'])
     return case
 
 
@@ -452,6 +739,60 @@ def run(rep):
             case = {'kind': 'net', 'section': 'dag', 'dag': name, 'A': 4, 'L': 10, 'n': 2, 'S': 3, 'target': sd % 2, 'wseed': sd, 'gain': 2.0,
                     'xseed': sd, 'refs': REF_KINDS[sd % len(REF_KINDS)], 'rs': sd, 'batch_size': 1 + sd % 7}
             _run_case(rep, case, ('dag', name, sd))
+    # (2b) additional forward arguments; batches that cut through the references of an example
+    for name in ('args1', 'args2'):
+        for sd in range(20 if thorough else 5):
+            case = {'kind': 'net', 'section': 'args', 'dag': name, 'A': 4, 'L': 10, 'n': 3, 'S': 1 + (sd + 2) % 4, 'target': sd % 2, 'wseed': sd, 'gain': 2.0,
+                    'xseed': 10 + sd, 'refs': REF_KINDS[(2 * sd + 1) % 9], 'rs': sd, 'batch_size': (2, 5, 1, 32, 4, 7, 3)[sd % 7], 'hyp': sd % 2, 'noret': sd % 3 == 0}
+            _run_case(rep, case, ('args', name, sd))
+    # (2c) element-wise activations outside the built-in table, registered through additional_nonlinear_ops
+    for name in EXTRA_NAMES:
+        for q in range(6 if thorough else 2):
+            spec = [['conv', 4, 3, 3, 2, 2, 2, 1], ['act', name, q], ['avg', 2, 2, 0, 0, 1], ['flat'], ['lin', 9, 3, 1], ['act', name, q + 1], ['lin', 3, 2, 1]]
+            case = {'kind': 'net', 'section': 'extra-act', 'A': 4, 'L': 12, 'n': 2, 'S': 3, 'target': q % 2, 'wseed': 200 + q, 'gain': (1.5, 4.0)[q % 2],
+                    'xseed': q, 'refs': ('onehot', 'dinuc', 'real')[q % 3], 'rs': q, 'batch_size': 4, 'spec': spec}
+            _run_case(rep, case, ('xact', name, q))
+    for k in range(200 if thorough else 16):
+        case = _new_case(rng, 'extra-act', lambda r, A, L, nt: gen_spec(r, A, L, r.randint(2, 4), nt, maxpool='disjoint', acts=EXTRA_NAMES + ['ReLU', 'Tanh']))
+        _run_case(rep, case, ('xact-net', k), sample=k < 1)
+    # (2d) references a small distance away from x: activation differences just outside the gradient-fallback band
+    for name in ACT_NAMES:
+        for qi, eps in enumerate(NEAR_EPS + ([1e-4, 3e-3] if thorough else [])):
+            spec = [['conv', 4, 3, 3, 2, 2, 2, 1], ['act', name, qi], ['avg', 2, 2, 0, 0, 1], ['flat'], ['lin', 9, 3, 1], ['act', name, qi + 1], ['lin', 3, 2, 1]]
+            case = {'kind': 'net', 'section': 'near', 'A': 4, 'L': 12, 'n': 2, 'S': 3, 'target': qi % 2, 'wseed': 300 + qi, 'gain': (1.5, 4.0)[qi % 2],
+                    'xseed': qi, 'refs': 'near', 'eps': eps, 'rs': 0, 'batch_size': 4, 'spec': spec}
+            i = _run_case(rep, case, ('near', name, eps))
+            if i:
+                worst = max(worst, i['max_rel_err'])
+    for k in range(300 if thorough else 30):
+        case = _new_case(rng, 'near', lambda r, A, L, nt: gen_spec(r, A, L, r.randint(2, 4), nt, maxpool='disjoint'), refs='near')
+        _run_case(rep, case, ('near-net', k), sample=k < 1)
+    # (2e) MaxPool2d with non-default parameters
+    for k in range(600 if thorough else 40):
+        case = _new_case(rng, 'pool2d', gen_spec2d, nest=0.0)
+        _run_case(rep, case, ('pool2d', k), sample=k < 1)
+    # (2f) nested containers
+    for k in range(150 if thorough else 12):
+        case = _new_case(rng, 'nested', lambda r, A, L, nt: gen_spec(r, A, L, r.randint(2, 4), nt, maxpool='disjoint'), nest=1.0)
+        _run_case(rep, case, ('nested', k), sample=k < 1)
+    # (2g) many examples, few references
+    for k in range(100 if thorough else 10):
+        case = _new_case(rng, 'many', lambda r, A, L, nt: gen_spec(r, A, L, r.randint(1, 3), nt, maxpool='disjoint'), n_range=(5, 9), S_range=(1, 3))
+        _run_case(rep, case, ('many', k))
+    # (2h) call histories
+    for sd in range(12 if thorough else 4):
+        spec = [['conv', 4, 3, 3, 1, 1, 1, 1], ['act', 'ReLU', 0], ['max', 2, 2, 0, 1, 0], ['act', ('Tanh', 'Sigmoid', 'GELU', 'ELU')[sd % 4], 0], ['flat'], ['lin', 15, 2, 1]]
+        for pre in ('poison', 'raise'):
+            case = {'kind': 'net', 'section': 'history', 'A': 4, 'L': 10, 'n': 2, 'S': 2, 'target': sd % 2, 'wseed': sd, 'gain': 2.0, 'xseed': 70 + sd,
+                    'refs': ('onehot', 'dinuc')[sd % 2], 'rs': sd, 'batch_size': 3, 'spec': spec, 'pre': pre}
+            _run_case(rep, case, ('history', pre, sd))
+    # (2i) POSSIBLE DEFECT cases (see the module docstring), off by default
+    for flag, key in ((ENABLE_AMBIENT_NO_GRAD, 'nograd'), (ENABLE_INPLACE_ACT, 'inplace')):
+        if flag:
+            spec = [['conv', 4, 3, 3, 1, 1, 1, 1], ['act', 'ReLU', 0], ['flat'], ['lin', 30, 2, 1]]
+            case = {'kind': 'net', 'section': key, 'A': 4, 'L': 10, 'n': 2, 'S': 3, 'target': 0, 'wseed': 0, 'gain': 2.0, 'xseed': 0,
+                    'refs': 'onehot', 'rs': 0, 'batch_size': 4, 'spec': spec, key: 1}
+            _run_case(rep, case, (key, 0))
     # the documented defaults: 20 dinucleotide shuffles per example, batch_size 32 (the last batch is partial)
     for sd in range(10 if thorough else 2):
         spec = gen_spec(rng, 4, 16, 3, 2, maxpool='disjoint')
